@@ -1081,24 +1081,39 @@ example : WFS [none, none, none] { g := cartGrid 2 3 [1, 3/2, 0] [(-2, 2), (-2, 
   simp [cartGrid, stepDims, List.range, List.range.loop]
 example : (Mut.cartPitch 3 4).ok [none, none, none] ∧ (Mut.setOffset [1, 1, 0]).ok [none, none, none] := ⟨rfl, rfl⟩
 
-/-- a pure-step radial lattice (hex or Cartesian) spanning rings −n … n -/
-def latticeGrid (steps : Steps) (off : List Rat) (geom sym : String) (n : Int) : G :=
-  { steps := steps, bounds := [none, none, none], limits := [(-n, n), (-n, n), (0, 1)],
+/-- a pure-step radial lattice (hex or Cartesian) spanning rings −n … n with m layers in k
+(m = 1: the usual 2-D core grid; m > 1: a tiered rack) -/
+def latticeGrid (steps : Steps) (off : List Rat) (geom sym : String) (n m : Int) : G :=
+  { steps := steps, bounds := [none, none, none], limits := [(-n, n), (-n, n), (0, m)],
     offset := off, geom := geom, sym := sym }
 
-/-- **an axial grid nested in a radial lattice may add indices, whatever its number of cells ≥ 1**
-(one-block assemblies included): `addingIsValid(axial, lattice)` holds, so the complete indices of a block
-are (i, j) of the assembly's cell and its own k. -/
-theorem axial_in_lattice_adds (bz : List Rat) (off) (h : 2 ≤ bz.length) (steps off' geom sym) (n : Int)
-    (i j k pi pj pk : Int) :
-    addingIsValid (axialGrid bz off [(0, 1), (0, 1), (0, 1)]) (latticeGrid steps off' geom sym n) = true ∧
+theorem latticeGrid_not_axialOnly (steps off geom sym) (n m : Int) (h : n ≠ 1 ∨ m ≤ 1) :
+    isAxialOnly (latticeGrid steps off geom sym n m) = false := by
+  simp only [isAxialOnly, indexBounds, latticeGrid, List.zipWith_cons_cons, List.zipWith_nil_right,
+    decide_eq_false_iff_not]
+  omega
+
+/-- **an axial grid nested in a radial lattice adds ALL of the parent's indices, whatever its number of
+cells ≥ 1 and whatever layer the parent cell is in**: `addingIsValid(axial, lattice)` holds, and the
+complete indices of a block at axial index k under a parent at (pi, pj, pk) are (i + pi, j + pj, k + pk) —
+the parent's k included (a tiered rack: parent (i, j, 2), child 3 ↦ (i, j, 5)). -/
+theorem axial_in_lattice_adds (bz : List Rat) (off) (h : 2 ≤ bz.length) (steps off' geom sym) (n m : Int)
+    (hn : n ≠ 1 ∨ m ≤ 1) (i j k pi pj pk : Int) :
+    addingIsValid (axialGrid bz off [(0, 1), (0, 1), (0, 1)]) (latticeGrid steps off' geom sym n m) = true ∧
     completeIndices (.index (some (axialGrid bz off [(0, 1), (0, 1), (0, 1)])) i j k)
-      (some (.index (some (latticeGrid steps off' geom sym n)) pi pj pk)) =
+      (some (.index (some (latticeGrid steps off' geom sym n m)) pi pj pk)) =
       [((i + pi : Int) : Rat), ((j + pj : Int) : Rat), ((k + pk : Int) : Rat)] := by
   have h1 := axial_isAxialOnly bz off h
-  have h2 : isAxialOnly (latticeGrid steps off' geom sym n) = false := lattice_not_axialOnly steps off' geom sym n
+  have h2 := latticeGrid_not_axialOnly steps off' geom sym n m hn
   refine ⟨by simp [addingIsValid, h1, h2], ?_⟩
   rw [complete_indices_axial_only]; simp [h1, h2]
+
+example : completeIndices (.index (some (axialGrid [0, 1, 2, 3, 4] [0, 0, 0] [(0, 1), (0, 1), (0, 1)])) 0 0 3)
+    (some (.index (some (latticeGrid (.mat [[1, 0, 0], [0, 1, 0], [0, 0, 100]]) [0, 0, 0] "" "" 3 4)) (-2) 1 2)) =
+    [-2, 1, 5] := by
+  have := (axial_in_lattice_adds [0, 1, 2, 3, 4] [0, 0, 0] (by decide)
+    (.mat [[1, 0, 0], [0, 1, 0], [0, 0, 100]]) [0, 0, 0] "" "" 3 4 (by decide) 0 0 3 (-2) 1 2).2
+  simpa using this
 
 example : isAxialOnly (axialGrid [0, 175] [0, 0, 0] [(0, 1), (0, 1), (0, 1)]) = true :=
   axial_isAxialOnly _ _ (by decide)                                  -- ONE cell (fromNCells(1) has bounds [0, 1])
